@@ -103,6 +103,16 @@ def cases(L, tier, seed):
         yield RT.JointCounts(), MI.joint_counts, dict(X=bad, n_x=3), ('joint_counts-' + nm,)
         yield RT.JointCounts(), MI.joint_counts, dict(X=X, Y=bad, n_x=3, n_y=3), ('joint_counts-y-' + nm,)
     yield RT.JointCounts(), MI.joint_counts, dict(X=X, Y=X[:2].copy(), n_x=3, n_y=3), ('joint_counts-length-mismatch',)
+    # a single feature on each side (1-d vectors and one-column matrices): the same rejections apply
+    x1 = np.array([0, 1, 2, 1, 0])
+    for dt in ('int32', 'int64'):
+        for bad1, nm in ((np.array([0, 1, 3, 1, 0]), 'id-too-large'), (np.array([0, -1, 2, 1, 0]), 'negative-id'), (np.array([3, 1, 2, 1, 0]), 'id-too-large-first')):
+            for shape in ('1d', 'column'):
+                f = (lambda v: v.astype(dt)) if shape == '1d' else (lambda v: v.astype(dt)[:, None])
+                yield RT.JointCounts(), MI.joint_counts, dict(X=f(x1), Y=f(bad1), n_x=3, n_y=3), ('joint_counts-single-y-' + nm, dt, shape)
+                yield RT.JointCounts(), MI.joint_counts, dict(X=f(bad1), Y=f(x1), n_x=3, n_y=3), ('joint_counts-single-x-' + nm, dt, shape)
+        yield RT.JointCounts(), MI.joint_counts, dict(X=x1.astype(dt), Y=x1[::-1].astype(dt).copy(), n_x=3, n_y=3), ('joint_counts-single-valid', dt)
+        yield RT.JointCounts(), MI.joint_counts, dict(X=x1.astype(dt), Y=x1[:3].astype(dt).copy(), n_x=3, n_y=3), ('joint_counts-single-length-mismatch', dt)
     # entropy / relative entropy
     for p in ([0.5, 0.5], [1.0, 0.0], [0.2, 0.3, 0.5], [0.0, 0.25, 0.75, 0.0], [3, 1, 0, 4]):
         for norm in (True, False):
@@ -115,6 +125,10 @@ def cases(L, tier, seed):
         for Q in dists:
             if len(P) == len(Q):
                 yield RT.KL(), EN.kl_divergence, dict(P=P.copy(), Q=Q.copy()), ('kl', P.tolist(), Q.tolist())
+    # Q misses part of P's support: the divergence is +inf there, never a finite negative number
+    for P, Q in (([0.5, 0.5], [1.0, 0.0]), ([0.2, 0.3, 0.5], [0.5, 0.5, 0.0]), ([0.0, 1.0], [1.0, 0.0]), ([1.0, 0.0], [0.5, 0.5])):
+        yield RT.KL(), EN.kl_divergence, dict(P=np.array(P), Q=np.array(Q)), ('kl-support', P, Q)
+    yield RT.KL(), EN.kl_divergence, dict(P=np.array([[0.5, 0.5], [0.5, 0.5]]), Q=np.array([[1.0, 0.0], [0.5, 0.5]])), ('kl-rows-support',)
     M1 = np.array([[0.5, 0.5], [0.9, 0.1]]); M2 = np.array([[0.5, 0.5], [0.2, 0.8]])
     yield RT.KL(), EN.kl_divergence, dict(P=M1, Q=M2), ('kl-rows',)
 
